@@ -3,7 +3,7 @@ import PhreeqcVerif.Model.Util
 /-! `pmodel basic`: reference evaluation of BASIC programs (C17).
 
 stdin : one case per line  `<id> <hp 0|1> <fuel> <hex of program bytes>`
-stdout: `M <id> <status> <error kind> ub=<0|1> warn=<n> gets=<0|1> | <punch items> | T<hex print text> | <save>`
+stdout: `M <id> <status> <error kind> ub=<0|1> warn=<n> | <punch items> | T<hex print text> | <save>`
         status = ok | err | fuel ; punch items `D<16 hex>` / `S<hex>` ; save = `D<16 hex>` or `none`.
 Strings are byte strings: byte b ↔ `Char.ofNat b`. -/
 namespace Driver.Basic
@@ -35,7 +35,7 @@ def render (id : String) (status kind : String) (s : St Float) : String :=
   let save := match s.save with
     | some x => "D" ++ hexOfFloat x
     | none => "none"
-  s!"M {id} {status} {kind} ub={if s.ub then 1 else 0} warn={s.warnings} gets={if s.longGets then 1 else 0} | {punch} | T{strToHex text} | {save}"
+  s!"M {id} {status} {kind} ub={if s.ub then 1 else 0} warn={s.warnings} | {punch} | T{strToHex text} | {save}"
 
 def runCase (w : List String) : String :=
   match w with
